@@ -1507,11 +1507,9 @@ class MPO(MPSGeometry):
         for i in range(self.L - 1):
             Ws[i].legs[1] = wR = Ws[i].legs[1].flip_charges_qconj()
             Ws[i + 1].legs[0] = wR.conj()
-        Ws[-1].legs[1] = wR = Ws[-1].legs[1].flip_charges_qconj()
-        if self.finite:
-            Ws[0].legs[0] = Ws[0].legs[0].flip_charges_qconj()
-        else:
-            Ws[0].legs[0] = wR.conj()
+        Ws[-1].legs[1] = Ws[-1].legs[1].flip_charges_qconj()
+        # (for infinite MPOs, this is the conj() of the last leg only up to a shift by one unit cell)
+        Ws[0].legs[0] = Ws[0].legs[0].flip_charges_qconj()
         # could keep graph in principle and only conjugate the operators
         # but its probably not worth the effort since building it is very fast
         return MPO(
